@@ -341,6 +341,80 @@ def run(prog: Program, res: Result, tier: str) -> None:
 
     res.trusted_base += ["ndarray.tofile on a raw io.FileIO handle flushes to the OS before returning",
                          "POSIX: a file opened with O_TRUNC and written sequentially without seeks grows by appending"]
+    # ---- O8 a batched writer opens every output name once ------------------------------------------------------
+    # extract_chans / extract_bands open their outputs in batches (`for batch_start in range(0, n, batch_size)`), each with mode "w+":
+    # a name that comes round again in a later batch truncates a file that was already complete.  The names of a batch must be the
+    # slice [batch_start:batch_end] of a list built once, before the loop, from the global index - or mention the global index.
+    n8 = 0
+    for qual in ("Filterbank.extract_chans", "Filterbank.extract_bands"):
+        f = prog.func("sigpyproc.base", qual)
+        fl8 = flow_of(f)
+        for lp in [n_ for n_ in body_walk(f.node) if isinstance(n_, ast.For) and isinstance(n_.target, ast.Name) and isinstance(n_.iter, ast.Call)
+                   and dotted(n_.iter.func) == "range" and len(n_.iter.args) == 3]:
+            bvar = lp.target.id
+            for c in [c_ for c_ in calls_in_body(lp) if (dotted(c_.func) or "").endswith("prep_outfile") and c_.args]:
+                n8 += 1
+                key = f"{qual}:names"
+                name_arg = c.args[0]
+                ok8, why8 = False, "the output name is not taken from a per-batch slice of a list of all names"
+                # the comprehension / loop variable naming this file, and the sequence it iterates
+                comp = parent(c)
+                while comp is not None and not isinstance(comp, (ast.ListComp, ast.GeneratorExp, ast.For)):
+                    comp = parent(comp)
+                seq = None
+                if isinstance(name_arg, ast.Name) and comp is not None:
+                    gens = comp.generators if not isinstance(comp, ast.For) else [comp]
+                    for g in gens:
+                        it = g.iter
+                        tg = g.target
+                        if isinstance(it, ast.Call) and dotted(it.func) in ("zip", "enumerate"):
+                            elts = tg.elts if isinstance(tg, ast.Tuple) else [tg]
+                            if dotted(it.func) == "enumerate" and len(elts) == 2 and norm(elts[1]) == name_arg.id:
+                                seq = it.args[0]
+                            elif dotted(it.func) == "zip":
+                                for e_, a_ in zip(elts, it.args):
+                                    if norm(e_) == name_arg.id:
+                                        seq = a_
+                        elif norm(tg) == name_arg.id:
+                            seq = it
+                if seq is not None:
+                    sx = fl8.expand(seq, fl8.cfg.node_for(lp.body[0]), stop={bvar})
+                    if isinstance(sx, ast.Subscript) and isinstance(sx.slice, ast.Slice) and sx.slice.lower is not None and norm(sx.slice.lower) == bvar:
+                        base_ = sx.value
+                        whole = base_
+                        if isinstance(base_, ast.Name):
+                            ds_ = [d_ for d_ in fl8.reaching(base_.id, fl8.cfg.node_for(lp)) if d_.kind == "assign"]
+                            whole = ds_[0].value if len(ds_) == 1 and len(fl8.reaching(base_.id, fl8.cfg.node_for(lp))) == 1 else None
+                        if isinstance(whole, ast.ListComp) and len(whole.generators) == 1:
+                            cv = {n_.id for n_ in ast.walk(whole.generators[0].target) if isinstance(n_, ast.Name)}
+                            used = {n_.id for n_ in ast.walk(whole.elt) if isinstance(n_, ast.Name)}
+                            ok8 = bool(cv & used)
+                            why8 = "" if ok8 else "the list of names does not depend on its index"
+                        else:
+                            why8 = "the sliced list of names is not built once, before the batch loop, as a comprehension over the global index"
+                    elif isinstance(sx, ast.Subscript) and isinstance(sx.slice, ast.Slice):
+                        why8 = f"the names of a batch are the slice `{norm(sx)[:60]}`, which does not start at the batch start: batches share names"
+                    elif isinstance(sx, ast.ListComp) and len(sx.generators) == 1:
+                        # names built inside the loop: they must be a function of the GLOBAL index (the element mentions batch_start, or the
+                        # comprehension runs over range(batch_start, ...) / a slice starting at batch_start) - a count of files is not enough
+                        g_ = sx.generators[0]
+                        mentions = lambda e_: any(isinstance(n_, ast.Name) and n_.id == bvar for n_ in ast.walk(e_))  # noqa: E731
+                        it_ = g_.iter
+                        from_start = (isinstance(it_, ast.Call) and dotted(it_.func) == "range" and len(it_.args) >= 2 and mentions(it_.args[0])) or \
+                            (isinstance(it_, ast.Subscript) and isinstance(it_.slice, ast.Slice) and it_.slice.lower is not None and mentions(it_.slice.lower))
+                        ok8 = mentions(sx.elt) or from_start
+                        why8 = "" if ok8 else (f"the names of a batch are numbered from 0 in every batch (`{norm(sx)[:80]}`): a later batch re-opens (and truncates) "
+                                               "the files of the first")
+                    elif any(isinstance(n_, ast.Name) and n_.id == bvar for n_ in ast.walk(sx)):
+                        ok8 = True
+                    else:
+                        why8 = f"the names of a batch (`{norm(sx)[:70]}`) do not depend on the batch start: a later batch re-opens (and truncates) the files of the first"
+                elif any(isinstance(n_, ast.Name) and n_.id == bvar for n_ in ast.walk(fl8.expand(name_arg, fl8.cfg.node_for(lp.body[0]), stop={bvar}))):
+                    ok8 = True
+                (res.ok if ok8 else res.bad)("O8", f, c, "each batch opens the slice [batch_start:batch_end] of one list of distinct names" if ok8 else why8, key=key)
+    if n8 < 2:
+        raise AnalysisError(f"only {n8} batched writer sites found (extract_chans, extract_bands)")
+    res.floor("O8", 2)
     res.floor("O1a", 1)
     res.floor("O1b", 1)
     res.floor("O4", 12)
@@ -367,6 +441,9 @@ def _accumulators(f: FuncInfo, loop) -> set[str]:
 
 B = "sigpyproc/base.py"
 MUTANTS = [
+    {"id": "c20-batch-names-local-index", "file": "sigpyproc/base.py", "expect": "C20.O8",
+     "old": "            batch_files = filenames[batch_start:batch_end]\n\n            with ExitStack() as stack:\n                out_files = [\n                    stack.enter_context(\n                        self.header.prep_outfile(\n                            filename,\n                            updates={\n                                \"nchans\": chanpersub,",
+     "new": "            batch_files = filenames[: batch_end - batch_start]\n\n            with ExitStack() as stack:\n                out_files = [\n                    stack.enter_context(\n                        self.header.prep_outfile(\n                            filename,\n                            updates={\n                                \"nchans\": chanpersub,"},
     {"id": "c20-buffered-opener", "file": "sigpyproc/io/fileio.py", "expect": "C20.O3a",
      "old": "self.opener = io.FileIO", "new": "self.opener = open"},
     {"id": "c20-mode-rplus", "file": "sigpyproc/header.py", "expect": "C20.O2b",
